@@ -184,11 +184,33 @@ def run_unit_verus(u, repo):
     # obligations: labels + implicit safety obligation per extracted function + lemmas
     labels = mp["labels"]
     obligations = {}
+    def callsite_exercised(l):
+        """a call-site precondition label counts as an obligation of this unit only if one of the
+        extracted bodies actually calls the shim that carries it"""
+        if l["kind"] != "callsite-requires":
+            return True
+        fn = None
+        for k in range(l["line"] - 1, max(l["line"] - 40, 0), -1):
+            m = re.search(r"\bfn\s+([A-Za-z0-9_]+)", src_lines[k - 1] if k - 1 < len(src_lines) else "")
+            if m:
+                fn = m.group(1)
+                break
+        if not fn:
+            return True
+        pat = re.compile(r"[.:\s]" + re.escape(fn) + r"\s*(::<[^>]*>)?\(")
+        for e in mp["extracts"]:
+            if e["kind"] in ("whole-fn", "fragment") and e.get("gen_lines") and not e.get("sigonly"):
+                a, b = e["gen_lines"]
+                body = "\n".join(src_lines[a:b])
+                if pat.search(body):
+                    return True
+        return False
+    labels = [l for l in labels if callsite_exercised(l)]
     for l in labels:
         obligations[l["label"]] = {"label": l["label"], "props": [p for p in re.split(r"[,\s]+", l["props"]) if p], "kind": l["kind"], "line": l["line"], "text": l["text"], "status": "discharged"}
     fn_ranges = []
     for e in mp["extracts"]:
-        if e["kind"] in ("whole-fn", "fragment") and e.get("gen_lines"):
+        if e["kind"] in ("whole-fn", "fragment") and e.get("gen_lines") and not e.get("sigonly"):
             lab = e["id"] + ".safety"
             props = [p for p in re.split(r"[,\s]+", e.get("props") or "") if p]
             obligations[lab] = {"label": lab, "props": props, "kind": "implicit: no overflow / out-of-bounds / failed unwrap / unmet callee precondition in the extracted body", "line": e["gen_lines"][0], "text": e["item"] + (" :: " + e["frag"] if e.get("frag") else ""), "status": "discharged"}
